@@ -521,12 +521,12 @@ theorem aecIdxOk_closed {b : Blk} (hc : Closed b) (a : AEC × Nat) (ha : a ∈ b
 
 /-- on a referentially closed block `read_generic_qr/aec/mm` never throw: the records are the plain index resolution -/
 theorem records_closed (b : Blk) (hc : Closed b) :
-    ∃ r, records b = .ok r ∧ r.qrs = b.qrs.map (resolveQ b) ∧ r.mms = b.mms.map (resolveM b) ∧
+    ∃ r, records b = .ok r ∧ r.qrs = (b.qrs.map fun q => narrowQ (resolveQ b q)) ∧ r.mms = b.mms.map (resolveM b) ∧
       r.aecs = b.aecs.filterMap fun a => (resolveA b a.1).map fun g => (g, a.2) := by
   have h1 : b.qrs.all (qrIdxOk b) = true := List.all_eq_true.2 fun q hq => qrIdxOk_closed hc q hq
   have h2 : b.aecs.all (aecIdxOk b) = true := List.all_eq_true.2 fun a ha => aecIdxOk_closed hc a ha
   have h3 : b.mms.all (mmIdxOk b) = true := List.all_eq_true.2 fun m hm => mmIdxOk_closed hc m hm
-  refine ⟨{ qrs := b.qrs.map (resolveQ b), aecs := b.aecs.filterMap fun a => (resolveA b a.1).map fun g => (g, a.2),
+  refine ⟨{ qrs := b.qrs.map (fun q => narrowQ (resolveQ b q)), aecs := b.aecs.filterMap fun a => (resolveA b a.1).map fun g => (g, a.2),
             mms := b.mms.map (resolveM b) }, ?_, rfl, rfl, rfl⟩
   simp only [records, h1, h2, h3, Bool.and_self, if_true]
 
